@@ -26,6 +26,8 @@ CLAIMED = {
          "Seeded search over numbers of clients and acceptors, orders and timings of listen / async_accept (all three overloads, before or after the SYN arrives, into fresh or reused sockets) / async_connect (to listening, closed and never-listening endpoints) / close, on single- and multi-homed, IPv4/IPv6 nodes with and without NAT and varied route latencies. History oracle: success implies a listener at issue time; successes and accepts pair one-to-one in SYN arrival order (taken from the probe in front of the acceptor); refused connects complete with connection_refused after a positive delay; endpoint equalities; tag bytes only at the paired socket.", "3.7"),
  "C13": ("conn", "exploration", "deterministic simulation: NAT placements with a pass-through control run (metamorphic timing check)",
          "The C07 generator with NAT hops in outgoing routes (none, connector side, acceptor side, both, several nodes behind one external address) plus UDP datagram exchanges. Oracle: receiver-visible source is the NAT external address with the sender's port in all three places the statement names, the real address without NAT; sender's local endpoint, payload and per-flow order unchanged; and every completion happens at the same virtual time, with the same result, as in a control run of the same plan with each NAT replaced by a synchronous pass-through hop.", "3.13"),
+ "C08": ("udp", "exploration", "deterministic simulation: seeded datagram histories with rebinding sockets, attribution by keyed bodies, loss accounting from probes",
+         "Seeded search over datagram sizes 0..70000 and 1-3 buffer layouts on both sides (receive buffers from 8 bytes up, truncating), send timings and same-instant bursts up to 400, send-buffer sizes, sets of 2-5 sockets binding / closing / re-binding 3 contended ports over time on 2-4 nodes (multi-homed, NAT), three receive styles and draining readers, routes with latency, bandwidth and finite tail-dropping queues. Every receive is attributed to exactly one send; destination incarnation, sender endpoint, per-flow order, send_to error codes and would_block are checked; at the end all sockets are drained and every undelivered datagram must have a stated reason established from probe logs and a shadow account of unread bytes.", "3.8"),
 }
 
 NOT_YET = "not claimed yet: the engine for this property is still under construction in this tree"
